@@ -21,7 +21,8 @@ RULE = ('(1) every sequence of length <= L (L=4 quick, 5 thorough) over 28 '
         'to undeclared key, unsupported type} plus {duplicate key, non-string '
         'key} x {uniform, link}; every node of the prefix tree is checked. '
         '(2) Hypothesis sequences of length <= 12 with drawn distributions '
-        '(norm, gamma, expon, beta, lognorm), fixed values of several number '
+        '(norm, gamma, expon, beta, lognorm, uniform, laplace; frozen with '
+        'positional arguments), fixed values of several number '
         'types, links to any earlier key, all malformed kinds; unit-cube '
         'inputs of shape (d,) and (n,d) incl. 0, tiny and 1-2^-53, and a '
         'sorted grid. Non-trivial = sequence with a link chain of length >= 2 '
@@ -483,8 +484,10 @@ def sequences(draw):
             dist = dict(k='uniform', a=a, b=a + draw(st.floats(1e-3, 100)))
         elif df == 'scipy':
             name = draw(st.sampled_from(['norm', 'gamma', 'expon', 'beta',
-                                         'lognorm']))
+                                         'lognorm', 'uniform', 'laplace']))
             args = {'norm': [draw(finite), draw(pos)],
+                    'uniform': [draw(finite), draw(pos)],
+                    'laplace': [draw(finite), draw(pos)],
                     'gamma': [draw(pos)], 'expon': [draw(finite), draw(pos)],
                     'beta': [draw(pos), draw(pos)],
                     'lognorm': [draw(st.floats(0.2, 2.0))]}[name]
